@@ -7,7 +7,7 @@
    value is as a function of the object's mask and contents -- is universally quantified everywhere.
    [faithful] is the policy of /repo, [finding_class] the recorded finding D8. *)
 From Coq Require Import ZArith List Bool.
-From PAV Require Import Base.Res Model.C11 Model.C11g Proofs.C11 Proofs.C11g.
+From PAV Require Import Base.Res Model.C11 Model.C11g Model.C11s Proofs.C11 Proofs.C11g Proofs.C11s.
 Import ListNotations.
 
 (* ---- PART A: histories of constructions, derivations, reads and queries -------------------------------------- *)
@@ -214,6 +214,45 @@ Theorem C11_chain_native_alias_refuted :
   gobservations (g_chain false) vf_chain [20; 15; 20]%nat = map (gspec (g_chain false) vf_chain) [20; 15; 20]%nat.
 Proof. exact chain_native_alias_refuted. Qed.
 
+(* ---- PART E: argument objects shared between calls (OverSamplingDataset handed to dataset constructors and to apply_over_sampling,
+   explicitly or through a signature's default instance; Model/C11s.v) ------------------------------------------------------------ *)
+
+(* on EVERY history of argument constructions, dataset constructions (the dataset keeps the object it is given, or the signature's
+   default instance), apply_over_sampling calls with an explicit / shared / omitted argument and derivations that keep the
+   over-sampling, the machine of the code (a NEW record per apply_over_sampling) observes what the value semantics observes *)
+Theorem C11_shared_arguments_pure : forall ops : list sop, hobservations false ops = vobservations ops.
+Proof. exact share_pure. Qed.
+
+(* ... and no step changes the record of anything that exists (default instances, the caller's arguments, datasets) *)
+Theorem C11_shared_arguments_nothing_changes : forall ops : list sop, Forall (fun x => snd x = []) (htrace false hst0 ops).
+Proof. exact share_nothing_changes. Qed.
+
+(* the caller's argument objects hold, after every history, the record they were created with; the default instances stay empty *)
+Theorem C11_shared_arguments_never_modified : forall (ops : list sop) (i : nat),
+  last (hobservations false (ops ++ [HPeekArg i])) bad = match nth_error (sargs ops) i with Some r => Ok r | None => bad end.
+Proof. exact share_args_never_modified. Qed.
+Theorem C11_default_instances_never_filled : forall (ops : list sop) (w : nat), (w < ndefaults)%nat ->
+  last (hobservations false (ops ++ [HPeekDefault w])) bad = Ok empty_rec.
+Proof. exact share_defaults_never_filled. Qed.
+
+(* the correspondence check of a KShare run accepts exactly the runs the specification accepts *)
+Theorem C11_shared_arguments_check_is_spec : forall ops out, share_agree ops out = share_spec_ok ops out.
+Proof. exact share_agree_is_spec. Qed.
+
+(* refutations of the variant that fills the missing fields of the record it RECEIVED (found by the independent campaign): with the
+   argument omitted the second dataset reports the over-sampling of the first and the default instance is filled; with one partially
+   specified argument handed to both calls the second result carries the first dataset's field and the caller's object is changed *)
+Theorem C11_apply_over_sampling_in_place_refuted_default :
+  hobservations true hist_share <> vobservations hist_share
+  /\ nth 5 (hobservations true hist_share) bad = Ok [1; 0; 2]%Z /\ nth 5 (vobservations hist_share) bad = Ok [4; 0; 1]%Z
+  /\ nth 6 (hobservations true hist_share) bad = Ok [1; 0; 2]%Z.
+Proof. exact share_inplace_refuted. Qed.
+Theorem C11_apply_over_sampling_in_place_refuted_shared_argument :
+  hobservations true hist_share_arg <> vobservations hist_share_arg
+  /\ nth 6 (hobservations true hist_share_arg) bad = Ok [1; 0; 8]%Z /\ nth 6 (vobservations hist_share_arg) bad = Ok [4; 0; 8]%Z
+  /\ nth 7 (hobservations true hist_share_arg) bad = Ok [1; 0; 8]%Z /\ nth 7 (vobservations hist_share_arg) bad = Ok [0; 0; 8]%Z.
+Proof. exact share_inplace_arg_refuted. Qed.
+
 (* ---- non-vacuity ------------------------------------------------------------------------------------------------ *)
 (* a history with a native construction under a mask, a dataset, cached reads, arithmetic, slicing, trimming, a valued
    mapper with an all-False pixel mask and both inversion factories ([example_history] in Proofs/C11.v): it respects the discipline under the code's policy,
@@ -234,6 +273,12 @@ Example C11_graph_hyps_satisfiable :
   gobservations (g_mesh true false) vf_mesh [7; 5; 6; 4; 7]%nat = [[0; 4; 9]; [6; 4; 6]; [6]; [-1; 4; 9]; [0; 4; 9]]%Z /\
   gobservations g_fit (fun n vs => [Z.of_nat n; Z.of_nat (length vs)]) [28; 12; 16; 15]%nat = [[28; 5]; [12; 2]; [15; 2]; [15; 2]]%Z.
 Proof. vm_compute. repeat split. Qed.
+
+(* PART E: a history with shared and omitted arguments gives non-trivial records *)
+Example C11_shared_arguments_nontrivial :
+  vobservations hist_share_arg = [Ok [1; 0; 2]; Ok [4; 0; 1]; Ok [0; 0; 8]; Ok [1; 0; 2]; Ok [4; 0; 1]; Ok [1; 0; 8]; Ok [4; 0; 8]; Ok [0; 0; 8]]%Z
+  /\ hobservations false hist_share = vobservations hist_share.
+Proof. vm_compute. split; reflexivity. Qed.
 
 Print Assumptions C11_discipline_implies_purity.
 Print Assumptions C11_inputs_never_modified.
@@ -269,3 +314,10 @@ Print Assumptions C11_partB_agrees_with_graph_node.
 Print Assumptions C11_defect_graphs_not_disciplined.
 Print Assumptions C11_mesh_areas_cached_refuted.
 Print Assumptions C11_chain_native_alias_refuted.
+Print Assumptions C11_shared_arguments_pure.
+Print Assumptions C11_shared_arguments_nothing_changes.
+Print Assumptions C11_shared_arguments_never_modified.
+Print Assumptions C11_default_instances_never_filled.
+Print Assumptions C11_shared_arguments_check_is_spec.
+Print Assumptions C11_apply_over_sampling_in_place_refuted_default.
+Print Assumptions C11_apply_over_sampling_in_place_refuted_shared_argument.
